@@ -6,8 +6,13 @@ import statsmodels.formula.api as smf
 import gen
 from common import rq, fx, unfx, enc_list, close
 
-REQUIRED = ['iptw_saturated', 'iptw_measures_saturated', 'gformula_saturated', 'gformula_generated', 'iptw_final_weight_generated', 'aipw_calc_generated', 'aipw_saturated']
+REQUIRED = ['iptw_saturated', 'iptw_measures_saturated', 'gformula_saturated', 'gformula_generated', 'iptw_final_weight_generated', 'aipw_calc_generated', 'aipw_saturated',
+            'bound_first_two', 'iptw_saturated_unreached_bound']
 RULE = ('random data sets with 1-3 categorical covariates (arity 2-4, <= 12 strata), positivity by construction, '
+        'round 4: per cell a truncation bound that is not reached, in a drawn accepted form (float / list / tuple, python or '
+        'numpy floats, a limit of exactly 0 or 1, more than two entries), and reporting / diagnostic methods (summary, '
+        'positivity, standardized_mean_differences, run_diagnostics, plot_*) called with drawn arguments between the model '
+        'specification and fit() and between fit() and reading the estimates; '
         'outcome binary / normal / count, with and without integer frequency weights; configuration cells enumerated '
         'per data set: IPTW stabilized x standardize (6), g-formula standardize (3), AIPTW, TMLE; every nuisance model '
         'saturated.  distinct = (data-set hash, estimator, options); non-trivial = the data set has >= 2 strata whose '
@@ -53,85 +58,143 @@ def nontrivial(df, covs, cf):
     return abs(crude1 - float(cf[('population', 1)])) > 1e-6 and len(set(gen.strata_ids(df, covs).tolist())) >= 2
 
 
+def cell_rng(rec, *cell):
+    """the stream from which the options of one configuration cell of one data set are drawn (bound form, reporting
+    methods called along the way): seeded by a number drawn from the check's rng when the data set was generated and
+    stored with it, so that a replay makes the same calls"""
+    return np.random.default_rng([int(rec.get('hist_seed', 0))] + [int(c) for c in cell])
+
+
+def observed(chk, obj, kind, hs, fitted, rec, p_any=1.0):
+    """gen.observe + a count of what was called and how it ended (input distribution of the evidence file)"""
+    calls = gen.observe(obj, kind, hs, fitted, rec.get('plots', 0.1), p_any)
+    for name, _, status in calls:
+        chk.count('observer/%s/%s/%s/%s' % (kind, 'after fit' if fitted else 'before fit', name, status))
+    return calls
+
+
+def read_iptw(ipt, ytype):
+    if ytype == 'binary':
+        got = {'RD': ipt.risk_difference.loc['A', 'RD'], 'RR': ipt.risk_ratio.loc['A', 'RR'],
+               'OR': ipt.odds_ratio.loc['A', 'OR'], 'm0': ipt.risk_difference.loc['Intercept', 'RD']}
+    elif ytype == 'normal':
+        got = {'ATE': ipt.average_treatment_effect.loc['A', 'ATE'],
+               'm0': ipt.average_treatment_effect.loc['Intercept', 'ATE']}
+    else:
+        got = {'ratio': float(np.exp(ipt.average_treatment_effect.loc['A', 'ATE'])),
+               'm0': float(np.exp(ipt.average_treatment_effect.loc['Intercept', 'ATE']))}
+    return {k: float(v) for k, v in got.items()}
+
+
 def run_iptw(chk, drv, df, covs, ytype, wcol, cf, dsid, rec):
-    from zepid.causal.ipw import IPTW
     cols = covs + ['A', 'Y'] + ([wcol] if wcol else [])
     miss = bool(df['Y'].isna().any())
     exact_p = exact_prop(df, covs, wcol)
     for stab in (True, False):
         for tgt in ('population', 'exposed', 'unexposed'):
-            dist = 'poisson' if ytype == 'poisson' else 'gaussian'
-            case = {'estimator': 'IPTW', 'stabilized': stab, 'standardize': tgt, 'outcome': ytype, 'weights': wcol,
-                    'missing_model': miss, 'data': rec}
-            chk.case(case, (dsid, 'IPTW', stab, tgt) if rec['_nontrivial'] else None)
-            chk.count('IPTW/%s/%s/%s%s%s' % (ytype, tgt, 'stab' if stab else 'unstab', '/w' if wcol else '',
-                                             '/miss' if miss else ''))
-            # a truncation bound that no fitted probability (denominator or numerator) reaches changes nothing; the form it
-            # is given in (none / symmetric float / asymmetric pair) rotates with the data set and the cell
-            m = round(float(min(exact_p.min(), 1 - exact_p.max())) / 2, 4)
-            bnd = [False, m or False, [m / 2 or 0.0001, 1 - m]][(int(exact_p.sum() * 1e6) + 3 * int(stab) +
-                                                              ('population', 'exposed', 'unexposed').index(tgt)) % 3]
-            case['bound'] = bnd
-            ipt = IPTW(df[cols], treatment='A', outcome='Y', weights=wcol, standardize=tgt)
-            ipt.treatment_model(gen.sat_cov(covs), stabilized=stab, bound=bnd, print_results=False)
-            if miss:
-                ipt.missing_model(gen.sat_out(covs), stabilized=stab, print_results=False)
-            ipt.marginal_structural_model('A')
-            ipt.fit(continuous_distribution=dist)
-            if ytype == 'binary':
-                got = {'RD': ipt.risk_difference.loc['A', 'RD'], 'RR': ipt.risk_ratio.loc['A', 'RR'],
-                       'OR': ipt.odds_ratio.loc['A', 'OR'], 'm0': ipt.risk_difference.loc['Intercept', 'RD']}
-            elif ytype == 'normal':
-                got = {'ATE': ipt.average_treatment_effect.loc['A', 'ATE'],
-                       'm0': ipt.average_treatment_effect.loc['Intercept', 'ATE']}
-            else:
-                got = {'ratio': float(np.exp(ipt.average_treatment_effect.loc['A', 'ATE'])),
-                       'm0': float(np.exp(ipt.average_treatment_effect.loc['Intercept', 'ATE']))}
-            got = {k: float(v) for k, v in got.items()}
-            case['impl'] = got
-            # history: a second fit() of the same specification on the same object changes nothing, and fit() does not
-            # write into the exposed weights (state leaking between calls shows up here)
-            w_before = np.array(ipt.iptw, dtype=float, copy=True)
-            ipt.fit(continuous_distribution=dist)
-            if ytype == 'binary':
-                again = {'RD': ipt.risk_difference.loc['A', 'RD'], 'RR': ipt.risk_ratio.loc['A', 'RR'],
-                         'OR': ipt.odds_ratio.loc['A', 'OR'], 'm0': ipt.risk_difference.loc['Intercept', 'RD']}
-            elif ytype == 'normal':
-                again = {'ATE': ipt.average_treatment_effect.loc['A', 'ATE'],
-                         'm0': ipt.average_treatment_effect.loc['Intercept', 'ATE']}
-            else:
-                again = {'ratio': float(np.exp(ipt.average_treatment_effect.loc['A', 'ATE'])),
-                         'm0': float(np.exp(ipt.average_treatment_effect.loc['Intercept', 'ATE']))}
-            chk.d(all(close(float(again[k]), got[k], rtol=1e-10, atol=1e-12) for k in got),
-                  'IPTW: a second fit() on the same object reproduces the first', dict(case, second=str(again)))
-            chk.d(np.allclose(np.asarray(ipt.iptw, dtype=float), w_before, rtol=0, atol=0, equal_nan=True),
-                  'IPTW.fit leaves the exposed weights IPTW.iptw untouched', case)
-            want = measures(cf[(tgt, 1)], cf[(tgt, 0)], ytype)
-            want['m0'] = float(cf[(tgt, 0)])
-            # with missing outcomes and a frequency-weight column the missingness model of IPTW is fitted unweighted
-            sig = {'estimator': 'IPTW', 'weights': True, 'missing_model': True} if (wcol and miss) else None
-            for k, v in got.items():
-                chk.d(close(v, want[k], **TOL), 'IPTW %s = closed-form standardization (%s, %s)' %
-                      (k, tgt, 'stabilized' if stab else 'unstabilized'), dict(case, want=want), signature=sig)
-            # K, nuisance layer: zEpid's fitted treatment probabilities are the cell proportions
-            chk.k(np.allclose(ipt.df['__denom__'].values, exact_p, rtol=0, atol=1e-7),
-                  'IPTW fitted treatment probabilities = weighted cell proportions', case)
-            # K, arithmetic layer: generated weight formula + Hajek means on the implementation's own fitted values
-            if drv is not None:
-                d = ipt.df['__denom__'].values
-                n = np.broadcast_to(np.asarray(ipt.df['__numer__'].values, dtype=float), d.shape)
-                mw = np.ones(len(d)) if ipt.ipmw is None else np.where(np.isnan(ipt.ipmw), 0.0, ipt.ipmw)
-                kw = gen.enc_rows(ipt.df, covs, wcol)
-                rep, line = drv.ask('iptw', c='f', stab=int(stab), tgt=tgt, n=enc_list(n, fx), d=enc_list(d, fx),
-                                    mw=enc_list(mw, fx), **to_float(kw))
-                ok = rep['status'] == 'ok'
-                if ok:
-                    wts = np.array([unfx(t) for t in rep['iptw'].split(',')])
-                    ok = np.allclose(wts, ipt.iptw, rtol=1e-12, atol=0)
-                    mm = measures(unfx(rep['m1']), unfx(rep['m0']), ytype)
-                    mm['m0'] = unfx(rep['m0'])
-                    ok = ok and all(close(got[k], mm[k], rtol=1e-7, atol=1e-9) for k in got)
-                chk.k(ok, 'IPTW weights and MSM estimates = model on the fitted values', dict(case, model=rep))
+            guarded(chk, 'IPTW', {'estimator': 'IPTW', 'stabilized': stab, 'standardize': tgt, 'outcome': ytype,
+                                  'weights': wcol, 'missing_model': miss, 'data': rec},
+                    iptw_cell, chk, drv, df, covs, ytype, wcol, cf, dsid, rec, stab, tgt, cols, miss, exact_p)
+
+
+def guarded(chk, what, case, fn, *args):
+    """an estimator that raises on one of these (valid, positivity by construction) data sets does not report the
+    standardized estimate: a failure of the property on that cell, and the other cells are still run"""
+    try:
+        fn(*args)
+    except RuntimeError as ex:
+        if 'driver' in str(ex):      # the model process, not the estimator: tool failure (exit 2)
+            raise
+        chk.d(False, '%s reports estimates on a valid data set (it raised)' % what, dict(case, impl_error=repr(ex)[:300]))
+    except Exception as ex:      # noqa: BLE001
+        import traceback
+        chk.d(False, '%s reports estimates on a valid data set (it raised)' % what,
+              dict(case, impl_error=repr(ex)[:300], traceback=traceback.format_exc()[-1200:]))
+
+
+def iptw_cell(chk, drv, df, covs, ytype, wcol, cf, dsid, rec, stab, tgt, cols, miss, exact_p):
+    from zepid.causal.ipw import IPTW
+    dist = 'poisson' if ytype == 'poisson' else 'gaussian'
+    case = {'estimator': 'IPTW', 'stabilized': stab, 'standardize': tgt, 'outcome': ytype, 'weights': wcol,
+            'missing_model': miss, 'data': rec}
+    chk.case(case, (dsid, 'IPTW', stab, tgt) if rec['_nontrivial'] else None)
+    chk.count('IPTW/%s/%s/%s%s%s' % (ytype, tgt, 'stab' if stab else 'unstab', '/w' if wcol else '',
+                                     '/miss' if miss else ''))
+    # a truncation bound that no fitted probability (denominator or numerator) reaches changes nothing, in
+    # whichever accepted form it is given: none / symmetric float / pair, list or tuple, python or numpy floats,
+    # a limit exactly 0 or 1, more than two entries (only the first two are documented to be used)
+    hs = cell_rng(rec, 1, stab, ('population', 'exposed', 'unexposed').index(tgt))
+    bnd, case['bound'] = gen.unreached_bound(hs, exact_p)
+    ipt = IPTW(df[cols], treatment='A', outcome='Y', weights=wcol, standardize=tgt)
+    ipt.treatment_model(gen.sat_cov(covs), stabilized=stab, bound=bnd, print_results=False)
+    if miss:
+        ipt.missing_model(gen.sat_out(covs), stabilized=stab, print_results=False)
+    # reporting / diagnostic methods a user calls between the model specification and fit(), and between fit()
+    # and reading the results: none of them may move an estimate
+    case['observers_before_fit'] = observed(chk, ipt, 'IPTW', hs, False, rec, 0.5)
+    ipt.marginal_structural_model('A')
+    ipt.fit(continuous_distribution=dist)
+    got = read_iptw(ipt, ytype)
+    case['impl'] = got
+    case['observers_after_fit'] = observed(chk, ipt, 'IPTW', hs, True, rec)
+    seen = read_iptw(ipt, ytype)
+    case['impl_after_observers'] = seen
+    # history: a second fit() of the same specification on the same object changes nothing, and fit() does not
+    # write into the exposed weights (state leaking between calls shows up here)
+    w_before = np.array(ipt.iptw, dtype=float, copy=True)
+    ipt.fit(continuous_distribution=dist)
+    again = read_iptw(ipt, ytype)
+    chk.d(all(close(float(again[k]), got[k], rtol=1e-10, atol=1e-12) for k in got),
+          'IPTW: a second fit() on the same object reproduces the first', dict(case, second=str(again)))
+    chk.d(np.allclose(np.asarray(ipt.iptw, dtype=float), w_before, rtol=0, atol=0, equal_nan=True),
+          'IPTW.fit leaves the exposed weights IPTW.iptw untouched', case)
+    want = measures(cf[(tgt, 1)], cf[(tgt, 0)], ytype)
+    want['m0'] = float(cf[(tgt, 0)])
+    # with missing outcomes and a frequency-weight column the missingness model of IPTW is fitted unweighted
+    sig = {'estimator': 'IPTW', 'weights': True, 'missing_model': True} if (wcol and miss) else None
+    for k, v in got.items():
+        chk.d(close(v, want[k], **TOL), 'IPTW %s = closed-form standardization (%s, %s)' %
+              (k, tgt, 'stabilized' if stab else 'unstabilized'), dict(case, want=want), signature=sig)
+    if case['observers_after_fit']:
+        chk.d(all(close(seen[k], want[k], **TOL) for k in seen),
+              'IPTW estimates read after the reporting methods = closed-form standardization (%s, %s)' %
+              (tgt, 'stabilized' if stab else 'unstabilized'), dict(case, want=want), signature=sig)
+    # K, nuisance layer: zEpid's fitted treatment probabilities are the cell proportions
+    chk.k(np.allclose(ipt.df['__denom__'].values, exact_p, rtol=0, atol=1e-7),
+          'IPTW fitted treatment probabilities = weighted cell proportions', case)
+    # K, bound layer: the model's use site of the bound (Bounds.estimatorBound / iptwRow: a float b = [b, 1-b], a
+    # collection = its entries 0 and 1) applied to the saturated probabilities gives zEpid's probabilities and weights
+    if drv is not None and case['bound']:
+        b = case['bound']
+        spec = ('float:' + fx(b['values'][0])) if b['form'] == 'float' else 'seq:' + ';'.join(fx(v) for v in b['values'])
+        wv = ipt.df[wcol].values.astype(float) if wcol else np.ones(len(ipt.df))
+        av = ipt.df['A'].values.astype(float)
+        nn = np.full(len(av), float((wv * av).sum() / wv.sum()) if stab else 1.0)
+        rep, _ = drv.ask('bw', kind='iptw', spec=spec, falsy=0, stab=int(stab), std=tgt,
+                         a=enc_list(av.astype(int), str), n=enc_list(nn, fx), d=enc_list(exact_prop(ipt.df, covs, wcol), fx))
+        ok = rep['status'] == 'ok'
+        if ok:
+            # 1e-7: IRLS convergence of zEpid's two logistic fits (the same tolerance as the nuisance layer below)
+            ok = np.allclose([unfx(t) for t in rep['d'].split(',')], ipt.df['__denom__'].values, rtol=0, atol=1e-7) and \
+                np.allclose([unfx(t) for t in rep['w'].split(',')], np.asarray(ipt.iptw, dtype=float), rtol=1e-6, atol=1e-7)
+        chk.k(ok, 'IPTW probabilities and weights under a bound = model of the bound (entries 0 and 1 of a collection) '
+                  'on the saturated fit', dict(case, model={k: v for k, v in rep.items() if k in ('status', 'err')}))
+    # K, arithmetic layer: generated weight formula + Hajek means on the implementation's own fitted values
+    if drv is not None:
+        d = ipt.df['__denom__'].values
+        n = np.broadcast_to(np.asarray(ipt.df['__numer__'].values, dtype=float), d.shape)
+        mw = np.ones(len(d)) if ipt.ipmw is None else np.where(np.isnan(ipt.ipmw), 0.0, ipt.ipmw)
+        kw = gen.enc_rows(ipt.df, covs, wcol)
+        rep, line = drv.ask('iptw', c='f', stab=int(stab), tgt=tgt, n=enc_list(n, fx), d=enc_list(d, fx),
+                            mw=enc_list(mw, fx), **to_float(kw))
+        ok = rep['status'] == 'ok'
+        if ok:
+            wts = np.array([unfx(t) for t in rep['iptw'].split(',')])
+            ok = np.allclose(wts, ipt.iptw, rtol=1e-12, atol=0)
+            mm = measures(unfx(rep['m1']), unfx(rep['m0']), ytype)
+            mm['m0'] = unfx(rep['m0'])
+            ok = ok and all(close(got[k], mm[k], rtol=1e-7, atol=1e-9) for k in got)
+        chk.k(ok, 'IPTW weights and MSM estimates = model on the fitted values', dict(case, model=rep))
 
 
 def run_gformula(chk, drv, df, covs, ytype, wcol, cf, dsid, rec):
@@ -143,12 +206,20 @@ def run_gformula(chk, drv, df, covs, ytype, wcol, cf, dsid, rec):
         chk.count('GF/%s/%s%s' % (ytype, tgt, '/w' if wcol else ''))
         g = TimeFixedGFormula(df[cols], exposure='A', outcome='Y', outcome_type=ytype, standardize=tgt, weights=wcol)
         g.outcome_model(gen.sat_out(covs), print_results=False)
+        # diagnostics called between the model and the fits, and between a fit and reading its result (both draw a
+        # figure, so only some cells make such calls)
+        hs = cell_rng(rec, 2, ('population', 'exposed', 'unexposed').index(tgt))
+        obs = []
+        obs += observed(chk, g, 'TimeFixedGFormula', hs, False, dict(rec, plots=1.0), rec.get('plots', 0.1))
         g.fit('all')
+        obs += observed(chk, g, 'TimeFixedGFormula', hs, True, dict(rec, plots=1.0), rec.get('plots', 0.1))
         r1 = float(g.marginal_outcome)
         q1 = np.asarray(g.predicted_df['Y'], dtype=float)
         g.fit('none')
+        obs += observed(chk, g, 'TimeFixedGFormula', hs, True, dict(rec, plots=1.0), rec.get('plots', 0.1))
         r0 = float(g.marginal_outcome)
         q0 = np.asarray(g.predicted_df['Y'], dtype=float)
+        case['observers'] = obs
         # history: a stochastic fit in between must not leak into a later deterministic fit
         if ytype == 'binary':
             g.fit_stochastic(p=0.5, samples=3, seed=7)
@@ -188,17 +259,28 @@ def run_aiptw(chk, drv, df, covs, ytype, wcol, cf, dsid, rec):
     case = {'estimator': 'AIPTW', 'outcome': ytype, 'weights': wcol, 'data': rec}
     chk.case(case, (dsid, 'AIPTW') if rec['_nontrivial'] else None)
     chk.count('AIPTW/%s%s' % (ytype, '/w' if wcol else ''))
+    hs = cell_rng(rec, 3)
+    bnd, case['bound'] = gen.unreached_bound(hs, exact_prop(df, covs, wcol))
     a = AIPTW(df[cols], exposure='A', outcome='Y', weights=wcol)
-    a.exposure_model(gen.sat_cov(covs), print_results=False)
+    a.exposure_model(gen.sat_cov(covs), bound=bnd, print_results=False)
     a.outcome_model(gen.sat_out(covs), continuous_distribution='poisson' if ytype == 'poisson' else 'gaussian',
                     print_results=False)
+    case['observers_before_fit'] = observed(chk, a, 'AIPTW', hs, False, rec, 0.5)
     a.fit()
     want = measures(cf[('population', 1)], cf[('population', 0)], ytype)
-    if ytype == 'binary':
-        got = {'RD': float(a.risk_difference), 'RR': float(a.risk_ratio)}
-    else:
-        got = {'ATE': float(a.average_treatment_effect)}
+
+    def read():
+        if ytype == 'binary':
+            return {'RD': float(a.risk_difference), 'RR': float(a.risk_ratio)}
+        return {'ATE': float(a.average_treatment_effect)}
+    got = read()
     case['impl'] = got
+    case['observers_after_fit'] = observed(chk, a, 'AIPTW', hs, True, rec)
+    seen = read()
+    case['impl_after_observers'] = seen
+    if case['observers_after_fit']:
+        chk.d(all(close(seen[k], want[k], **TOL) for k in seen),
+              'AIPTW estimates read after the reporting methods = closed-form standardization', dict(case, want=want))
     a.fit()
     again = ({'RD': float(a.risk_difference), 'RR': float(a.risk_ratio)} if ytype == 'binary'
              else {'ATE': float(a.average_treatment_effect)})
@@ -224,8 +306,10 @@ def run_tmle(chk, drv, df, covs, ytype, cf_raw, dsid, rec, cb):
     case = {'estimator': 'TMLE', 'outcome': ytype, 'continuous_bound': cb, 'missing_model': miss, 'data': rec}
     chk.case(case, (dsid, 'TMLE', cb) if rec['_nontrivial'] else None)
     chk.count('TMLE/%s/cb=%s%s' % (ytype, cb, '/miss' if miss else ''))
+    hs = cell_rng(rec, 4, int(cb * 1e4))
+    bnd, case['bound'] = gen.unreached_bound(hs, exact_prop(df, covs, None))
     t = TMLE(df[cols], exposure='A', outcome='Y', continuous_bound=cb)
-    t.exposure_model(gen.sat_cov(covs), print_results=False)
+    t.exposure_model(gen.sat_cov(covs), bound=bnd, print_results=False)
     if miss:
         t.missing_model(gen.sat_out(covs), print_results=False)
     if ytype == 'binary':
@@ -233,10 +317,19 @@ def run_tmle(chk, drv, df, covs, ytype, cf_raw, dsid, rec, cb):
     else:
         t.outcome_model(gen.sat_out(covs), print_results=False,
                         continuous_distribution='poisson' if ytype == 'poisson' else 'gaussian')
+    case['observers_before_fit'] = observed(chk, t, 'TMLE', hs, False, rec, 0.5)
     t.fit()
+
+    def read():
+        if ytype == 'binary':
+            return {'RD': float(t.risk_difference), 'RR': float(t.risk_ratio), 'OR': float(t.odds_ratio)}
+        return {'ATE': float(t.average_treatment_effect)}
+    got = read()
+    case['observers_after_fit'] = observed(chk, t, 'TMLE', hs, True, rec)
+    seen = read()
+    case['impl_after_observers'] = seen
     if ytype == 'binary':
         cf = cf_raw
-        got = {'RD': float(t.risk_difference), 'RR': float(t.risk_ratio), 'OR': float(t.odds_ratio)}
     else:
         # closed form of the outcome clipped on the unit scale (documented continuous_bound)
         lo, hi = df['Y'].min(), df['Y'].max()
@@ -246,12 +339,14 @@ def run_tmle(chk, drv, df, covs, ytype, cf_raw, dsid, rec, cb):
         d2['Y'] = u * (hi - lo) + lo
         d2.loc[df['Y'].isna(), 'Y'] = np.nan
         cf = gen.closed_form(d2, covs)
-        got = {'ATE': float(t.average_treatment_effect)}
     want = measures(cf[('population', 1)], cf[('population', 0)], ytype)
     case['impl'] = got
     for k, v in got.items():
         chk.d(close(v, want[k], rtol=1e-6, atol=1e-7), 'TMLE %s = closed-form standardization' % k,
               dict(case, want=want))
+    if case['observers_after_fit']:
+        chk.d(all(close(seen[k], want[k], rtol=1e-6, atol=1e-7) for k in seen),
+              'TMLE estimates read after the reporting methods = closed-form standardization', dict(case, want=want))
 
 
 def one_dataset(chk, drv, rng, ytype, wcol, missing, which, frac=False):
@@ -261,6 +356,8 @@ def one_dataset(chk, drv, rng, ytype, wcol, missing, which, frac=False):
     rec = gen.describe(df, covs, outcome=ytype, weights=('non-integer' if frac else wcol), missing=missing)
     rec['frame'] = gen.frame_record(df)
     rec['_nontrivial'] = bool(nontrivial(df, covs, cf))
+    rec['hist_seed'] = int(rng.integers(0, 2 ** 31))
+    rec['plots'] = PLOTS
     dsid = hash(df.to_csv())
     # gate H: reference saturated fit reproduces the cell proportions
     chk.h_checked += 1
@@ -278,12 +375,15 @@ def one_dataset(chk, drv, rng, ytype, wcol, missing, which, frac=False):
     if 'iptw' in which:
         run_iptw(chk, drv, df, covs, ytype, wcol, cf, dsid, rec)
     if 'gf' in which and not (missing and False):
-        run_gformula(chk, drv, df, covs, ytype, wcol, cf, dsid, rec)
+        guarded(chk, 'TimeFixedGFormula', {'estimator': 'TimeFixedGFormula', 'outcome': ytype, 'weights': wcol, 'data': rec},
+                run_gformula, chk, drv, df, covs, ytype, wcol, cf, dsid, rec)
     if 'aiptw' in which and not missing:
-        run_aiptw(chk, drv, df, covs, ytype, wcol, cf, dsid, rec)
+        guarded(chk, 'AIPTW', {'estimator': 'AIPTW', 'outcome': ytype, 'weights': wcol, 'data': rec},
+                run_aiptw, chk, drv, df, covs, ytype, wcol, cf, dsid, rec)
     if 'tmle' in which and not wcol:
         for cb in ((0.0005, 0.0) if ytype != 'binary' else (0.0005,)):
-            run_tmle(chk, drv, df, covs, ytype, cf, dsid, rec, cb)
+            guarded(chk, 'TMLE', {'estimator': 'TMLE', 'outcome': ytype, 'continuous_bound': cb, 'data': rec},
+                    run_tmle, chk, drv, df, covs, ytype, cf, dsid, rec, cb)
 
 
 def aipw_calculator_direct(chk, drv, rng, n_cases):
@@ -367,7 +467,12 @@ def aipw_calculator_direct(chk, drv, rng, n_cases):
 
 
 
+PLOTS = 0.2      # chance that a reporting call may be one that draws a figure (0.25 s each); thorough tier: 0.4
+
+
 def run(chk, drv, rng, tier):
+    global PLOTS
+    PLOTS = 0.2 if tier == 'quick' else 0.4
     reps = 5 if tier == "quick" else 40
     aipw_calculator_direct(chk, drv, rng, 150 if tier == 'quick' else 2000)
     for _ in range(reps):
@@ -416,11 +521,12 @@ def replay(rec):
         cf = gen.closed_form(df, covs, wcol)
         data['_nontrivial'] = True
         with common.quiet():
-            {'IPTW': run_iptw, 'TimeFixedGFormula': run_gformula, 'AIPTW': run_aiptw}.get(c['estimator'], None) and \
-                {'IPTW': run_iptw, 'TimeFixedGFormula': run_gformula, 'AIPTW': run_aiptw}[c['estimator']](
-                    chk, None, df, covs, c['outcome'], wcol, cf, 0, data)
+            fn = {'IPTW': run_iptw, 'TimeFixedGFormula': run_gformula, 'AIPTW': run_aiptw}.get(c['estimator'])
+            if fn is not None:
+                guarded(chk, c['estimator'], c, fn, chk, None, df, covs, c['outcome'], wcol, cf, 0, data)
             if c['estimator'] == 'TMLE':
-                run_tmle(chk, None, df, covs, c['outcome'], cf, 0, data, c.get('continuous_bound', 0.0005))
+                guarded(chk, 'TMLE', c, run_tmle, chk, None, df, covs, c['outcome'], cf, 0, data,
+                        c.get('continuous_bound', 0.0005))
         n = len(chk.d_fail)
     print('failures reproduced:', n)
     return 1 if n else 0
